@@ -82,6 +82,8 @@ func newStats() *Stats {
 
 // World is one simulated process: trees, versions, disks, cache, model, chooser.
 type World struct {
+	cancelArm bool // next scheduled MakeRoot runs under a context cancelled after cancelAt Stores
+	cancelAt  int
 	t     *testing.T
 	sc    *Scenario
 	cfg   Config
@@ -164,6 +166,10 @@ func NewWorld(t *testing.T, sc *Scenario) *World {
 			return c * scale, err
 		}}
 	}
+	if w.cfg.CbFaults {
+		w.installCallbackFaults()
+		w.seams.marOutsideCmpOnly = true
+	}
 	return w
 }
 
@@ -239,7 +245,14 @@ func (r callResult) String() string {
 	return "ok"
 }
 
-func valRepr(v interface{}) string { return fmt.Sprintf("%#v", v) }
+func valRepr(v interface{}) string {
+	s := fmt.Sprintf("%#v", v)
+	if len(s) > 400 {
+		// very large values are represented by a prefix, their length and a hash of the whole
+		return fmt.Sprintf("%s...(len %d, fnv %x)", s[:48], len(s), fnv64([]byte(s)))
+	}
+	return s
+}
 
 func (w *World) modelObs(m *Model) []string {
 	out := make([]string, len(m.es))
@@ -593,6 +606,8 @@ func (w *World) exec(op *Op) {
 		w.opFork(op)
 	case "persist":
 		w.opPersist(op)
+	case "copersist":
+		w.opCoPersist(op)
 	case "reload":
 		w.opReload(op)
 	case "restart":
@@ -669,7 +684,11 @@ func (w *World) opDelete(op *Op) {
 		guard(func() error { return t.m.Delete(ctx, key, val) })
 		return
 	}
+	hBefore := int(t.m.Height())
 	r := guard(func() error { return t.m.Delete(ctx, key, val) })
+	if r.err == nil && r.panicked == nil && hBefore-int(t.m.Height()) >= 2 {
+		w.st.Probes["delete-shrank-two-or-more-levels"]++
+	}
 	if r.panicked != nil {
 		w.failFor("C01", "delete-panics", "Delete(key#%d,val#%d) present=%v: %s", op.Key, op.Val, present, r)
 		return
@@ -703,6 +722,37 @@ func (w *World) opDelete(op *Op) {
 // index op.N). Whatever the op returns, the tree is from then on judged only by oracles that do
 // not need the model (shape, size-vs-reachable, content addressing of what it persists).
 func (w *World) faultedOp(op *Op, t *Tree, call func() error, onSuccess func()) bool {
+	if op.F == "marfault" && w.seams != nil {
+		// one Marshal call made by this op outside any key comparison (a layer computation)
+		// fails. An operation that returns an error must have left the tree as it was and one
+		// that returns nil took effect as usual: the tree stays under every model-based oracle.
+		w.seams.reset()
+		w.seams.marOutsideCmpOnly = true
+		w.seams.failMar = op.N
+		before := w.seams.fired["marshal-fail"]
+		r := guard(call)
+		w.seams.failMar = 0
+		if w.seams.fired["marshal-fail"] != before {
+			w.st.Faults["marshal-fail"]++
+			if r.err != nil {
+				w.st.Probes["modifying-op-failed-under-marshal-fault"]++
+			} else {
+				w.st.Probes["marshal-fault-absorbed"]++
+			}
+		}
+		if r.panicked != nil {
+			t.unsure = true
+			return true
+		}
+		if r.err == nil {
+			onSuccess()
+		}
+		if int(t.m.Height()) != t.baseHeight {
+			t.hChanged = true
+		}
+		w.sanity(t, "faulted-"+op.K)
+		return true
+	}
 	if op.F != "loadfault" || w.cfg.InMemory {
 		return false
 	}
@@ -1201,6 +1251,7 @@ type FlushResult struct {
 	deadlock    bool
 	leftParked  int
 	order       []string
+	cancelled   bool // the caller's context was cancelled while the flush was running
 }
 
 // schedMakeRoot runs MakeRoot with every Store parked in the disk and released
@@ -1218,11 +1269,21 @@ func (w *World) schedMakeRoot(m *mast.Mast, d *SimDisk, faultPermille int, failA
 	}
 	d.SetScheduled(true)
 	done := make(chan struct{})
+	mctx := ctx
+	var cancel context.CancelFunc
+	cancelAt := -1
+	if w.cancelArm {
+		// the caller's context is cancelled after cancelAt Stores completed; the store itself
+		// ignores the context (as the in-memory and file stores do)
+		cancelAt, w.cancelArm = w.cancelAt, false
+		mctx, cancel = context.WithCancel(ctx)
+		defer cancel()
+	}
 	go func() {
 		defer close(done)
 		fr.res = guard(func() error {
 			var err error
-			fr.root, err = m.MakeRoot(ctx)
+			fr.root, err = m.MakeRoot(mctx)
 			return err
 		})
 	}()
@@ -1235,6 +1296,12 @@ func (w *World) schedMakeRoot(m *mast.Mast, d *SimDisk, faultPermille int, failA
 		case <-done:
 			finished = true
 		default:
+		}
+		if !finished && cancel != nil && !fr.cancelled && released >= cancelAt {
+			fr.cancelled = true
+			w.st.Faults["ctx-cancel"]++
+			cancel()
+			continue
 		}
 		parked := d.ParkedSorted()
 		if finished {
@@ -1343,6 +1410,8 @@ func (w *World) opPersist(op *Op) {
 		}
 	case "stall":
 		stall = true
+	case "cancel":
+		w.cancelArm, w.cancelAt = true, op.N
 	}
 	wasDirty := t.m.IsDirty()
 	preObs := w.modelObs(t.model)
@@ -1393,6 +1462,25 @@ func (w *World) opPersist(op *Op) {
 		}
 		t.flushFailedBefore = true
 		return
+	}
+	if fr.res.err != nil && fr.cancelled {
+		// giving up because the caller cancelled is an error like any other: the tree stays
+		// usable and unchanged, and a later MakeRoot must succeed
+		w.st.Probes["flush-cancelled-reported-error"]++
+		obs, r := w.observe(t.m)
+		if r.bad() {
+			w.failFor("C03", "tree-unusable-after-failed-flush", "after MakeRoot reported %v (context cancelled) the tree cannot be iterated: %s", fr.res.err, r)
+			return
+		}
+		if !sameStrs(obs, preObs) {
+			w.failFor("C03", "tree-changed-by-failed-flush", "after MakeRoot failed on a cancelled context contents differ: %s", firstDiff(obs, preObs))
+			return
+		}
+		t.flushFailedBefore = true
+		return
+	}
+	if fr.cancelled {
+		w.st.Probes["flush-cancelled-midway-returned-root"]++
 	}
 	if fr.res.err != nil && w.cfg.Marshaler == "json" && w.hasUnmarshalable(t.model) {
 		// the tree holds a value the marshaler rejects: an error is the right answer
